@@ -97,10 +97,21 @@ Definition op_cbor_map_twice (args : list sx) : sx :=
   | None => bad_args
   end.
 
+(* cbor_prog_cont items... : each call on its own; a refused call contributes nothing *)
+Definition op_cbor_prog_cont (args : list sx) : sx :=
+  match omap (item_of_sx 64) args with
+  | Some items =>
+      let rs := map (fun it => run_items [it]) items in
+      SL [SB (flat_map (fun r => match r with Ok b => b | _ => [] end) rs);
+          SL (map (fun r => match r with Ok _ => SZ 1 | _ => SZ 0 end) rs)]
+  | None => bad_args
+  end.
+
 Definition dispatch_cbor (op : bytes) (args : list sx) : option sx :=
   if bytes_eqb op (s2b "cbor_prog") then Some (op_cbor_prog args)
   else if bytes_eqb op (s2b "cbor_dec") then Some (op_cbor_dec args)
   else if bytes_eqb op (s2b "cbor_text_batch") then Some (op_cbor_text_batch args)
   else if bytes_eqb op (s2b "cbor_dec_segments") then Some (op_cbor_dec_segments args)
   else if bytes_eqb op (s2b "cbor_map_twice") then Some (op_cbor_map_twice args)
+  else if bytes_eqb op (s2b "cbor_prog_cont") then Some (op_cbor_prog_cont args)
   else None.
